@@ -72,7 +72,7 @@ def run(ctx):
               "with a fault or invalid ammo, or with auto-tag on a path of >=2 bytes; scenario cases with >=2 steps; every gshoot case; "
               "distinct = distinct case lines"),
         key_fn=key_fn,
-        translators=[("grpcstatus", "GrpcStatusGen.v"), ("consts", "ConstGen.v"), ("gofn-httpgun", "GoFnHttpgunGen.v"), ("pooldeps", "PoolDepsGen.v"), ("phout", "PhoutGen.v")],
+        translators=[("grpcstatus", "GrpcStatusGen.v"), ("consts", "ConstGen.v"), ("gofn-httpgun", "GoFnHttpgunGen.v"), ("pooldeps", "PoolDepsGen.v"), ("awaitrun", "AwaitRunGen.v")],
         bridge_files=["Gen/GrpcStatus_bridge.v", "Gen/Const_bridge.v", "Gen/GoFnHttpgun_bridge.v", "Gen/PhoutReport_bridge.v", "Gen/EngineRun_bridge.v"],
         trusted=[
             "translator harness/cmd/translate (grpcstatus: go/ast over ConvertGrpcStatus + markdown table; consts: values compiled from /repo)",
@@ -90,8 +90,8 @@ def run(ctx):
             "expected auto-tag settings = the documented defaults overlaid by the section",
             "engine cases: a whole pool section (gun http / connect, ammo: uri file with limit / passes, result: phout with ids and a queue size, rps shared / per instance, "
             "startup once / const / line / step / instance_step / composite) decoded by the real config decoder into engine.Config and run by the real engine against a target that answers "
-            "after a delay and keeps the paths it received; lines of the results file vs requests received; code-shaped side = Model/ShootEngine.v (slow-target trace, variant from translate phout: "
-            "runCancel() only in checkAllInstancesAreFinished)",
+            "after a delay and keeps the paths it received; lines of the results file vs requests received; code-shaped side = Model/ShootEngine.v (slow-target trace, out-of-ammo branch, check and contexts as translate awaitrun re-reads them"
+            ")",
             "modelled, not verified: which Go error values the network stack produces for a fault (the harness records the shape of the error value the gun got "
             "and the model's get_errno is applied to it); the errno Linux yields per fault (refused 111, stall 110, reset 104, short body / refused CONNECT 999) is a table in the OCaml driver; "
             "errors.Cause/Underlying unwrapping is modelled by the EWrap constructor",
